@@ -359,7 +359,10 @@ def r4(ck, F):
                         w = True
             if gt:
                 wrote.append((gt[0][1] != 0, w, show(gt[0][0])))
-        ok = wrote and all(taken == w for taken, w, _ in wrote) and any(taken for taken, _, _ in wrote) and all("max_level" in t for _, _, t in wrote)
+            else:
+                wrote.append((None, w, "<no comparison with max_level on this path>"))
+        # every path (overwrite of an existing directive as well as insertion) compares the new level with max_level
+        ok = wrote and all(taken is not None and taken == w for taken, w, _ in wrote) and any(taken for taken, _, _ in wrote) and all("max_level" in t for _, _, t in wrote)
         if ok:
             ck.ok("C08.R4", "DirectiveSet::add raises max_level exactly when the new directive's level exceeds it", fn=add.path)
         else:
